@@ -25,6 +25,7 @@ import (
 	"net/http"
 	"os"
 	"path/filepath"
+	"sort"
 	"strings"
 	"sync"
 	"time"
@@ -431,9 +432,193 @@ func (x *extractor) stmt(st ast.Stmt, rest []ast.Stmt, sp fnSpec, hasResults boo
 	}
 }
 
+// parseDir parses the non-test Go files of one package directory of the repository.
+func parseDir(rel string) []*ast.File {
+	dir := filepath.Join(repoRoot(), rel)
+	ents, err := os.ReadDir(dir)
+	if err != nil {
+		return nil
+	}
+	var fs []*ast.File
+	fset := token.NewFileSet()
+	for _, en := range ents {
+		n := en.Name()
+		if en.IsDir() || !strings.HasSuffix(n, ".go") || strings.HasSuffix(n, "_test.go") {
+			continue
+		}
+		if f, err := parser.ParseFile(fset, filepath.Join(dir, n), nil, 0); err == nil {
+			fs = append(fs, f)
+		}
+	}
+	return fs
+}
+
+func sortedSet(m map[string]bool) string {
+	var l []string
+	for k := range m {
+		l = append(l, k)
+	}
+	sort.Strings(l)
+	if len(l) == 0 {
+		return "-"
+	}
+	return strings.Join(l, ",")
+}
+
+// signers lists every function of package authority that asks for a signature on a
+// certificate: x509CAService.CreateCertificate / RenewCertificate, sshutil.CreateCertificate,
+// or the SSH signer's Sign(rand, data).
+func signers() string {
+	out := map[string]bool{}
+	for _, f := range parseDir("authority") {
+		for _, d := range f.Decls {
+			fd, ok := d.(*ast.FuncDecl)
+			if !ok || fd.Body == nil {
+				continue
+			}
+			ast.Inspect(fd.Body, func(n ast.Node) bool {
+				c, ok := n.(*ast.CallExpr)
+				if !ok {
+					return true
+				}
+				sel, ok := c.Fun.(*ast.SelectorExpr)
+				if !ok {
+					return true
+				}
+				switch sel.Sel.Name {
+				case "CreateCertificate", "RenewCertificate":
+					if x, ok := sel.X.(*ast.SelectorExpr); ok && x.Sel.Name == "x509CAService" {
+						out[fd.Name.Name] = true
+					}
+					if isIdent(sel.X, "sshutil") {
+						out[fd.Name.Name] = true
+					}
+				case "Sign":
+					if isIdent(sel.X, "signer") && len(c.Args) == 2 {
+						out[fd.Name.Name] = true
+					}
+				}
+				return true
+			})
+		}
+	}
+	return sortedSet(out)
+}
+
+// callers lists the server-side functions (api, acme, scep) that call an issuing entry point
+// of the authority, as caller>entry.
+func callers() string {
+	entries := map[string]bool{"SignWithContext": true, "RenewContext": true, "Rekey": true, "SignSSH": true,
+		"SignSSHAddUser": true, "RenewSSH": true, "RekeySSH": true, "Renew": true, "Sign": true}
+	out := map[string]bool{}
+	for _, dir := range []string{"api", "acme", "acme/api", "scep", "scep/api"} {
+		for _, f := range parseDir(dir) {
+			for _, d := range f.Decls {
+				fd, ok := d.(*ast.FuncDecl)
+				if !ok || fd.Body == nil {
+					continue
+				}
+				ast.Inspect(fd.Body, func(n ast.Node) bool {
+					c, ok := n.(*ast.CallExpr)
+					if !ok {
+						return true
+					}
+					sel, ok := c.Fun.(*ast.SelectorExpr)
+					if !ok || !entries[sel.Sel.Name] {
+						return true
+					}
+					switch sel.Sel.Name {
+					case "Renew", "Sign", "Rekey": // common names: only on the authority
+						okRecv := isIdent(sel.X, "a") || isIdent(sel.X, "auth")
+						if cx, ok := sel.X.(*ast.CallExpr); ok && calleeName(cx) == "mustAuthority" {
+							okRecv = true
+						}
+						if !okRecv {
+							return true
+						}
+					}
+					out[fd.Name.Name+">"+sel.Sel.Name] = true
+					return true
+				})
+			}
+		}
+	}
+	return sortedSet(out)
+}
+
+func selNames(e ast.Node, pkg string) []string {
+	m := map[string]bool{}
+	ast.Inspect(e, func(n ast.Node) bool {
+		if s, ok := n.(*ast.SelectorExpr); ok && isIdent(s.X, pkg) {
+			m[s.Sel.Name] = true
+		}
+		return true
+	})
+	var l []string
+	for k := range m {
+		l = append(l, k)
+	}
+	sort.Strings(l)
+	return l
+}
+
+// scepTypes: the message types PKIOperation validates the challenge for, and the message
+// types DecryptPKIEnvelope treats as carrying a certificate request.
+func scepTypes() string {
+	challenged, csr := "#notfound", "#notfound"
+	fset := token.NewFileSet()
+	if f, err := parser.ParseFile(fset, filepath.Join(repoRoot(), "scep/api/api.go"), nil, 0); err == nil {
+		ast.Inspect(f, func(n ast.Node) bool {
+			ifs, ok := n.(*ast.IfStmt)
+			if !ok {
+				return true
+			}
+			has := false
+			ast.Inspect(ifs.Body, func(m ast.Node) bool {
+				if c, ok := m.(*ast.CallExpr); ok && calleeName(c) == "ValidateChallenge" {
+					has = true
+				}
+				return true
+			})
+			if l := selNames(ifs.Cond, "smallscep"); has && len(l) > 0 {
+				challenged = strings.Join(l, "+")
+				return false
+			}
+			return true
+		})
+	}
+	if f, err := parser.ParseFile(fset, filepath.Join(repoRoot(), "scep/authority.go"), nil, 0); err == nil {
+		ast.Inspect(f, func(n ast.Node) bool {
+			cc, ok := n.(*ast.CaseClause)
+			if !ok {
+				return true
+			}
+			var l []string
+			for _, e := range cc.List {
+				l = append(l, selNames(e, "smallscep")...)
+			}
+			sort.Strings(l)
+			for _, x := range l {
+				if x == "PKCSReq" {
+					csr = strings.Join(l, "+")
+				}
+			}
+			return true
+		})
+	}
+	return "challenged=" + challenged + " csr=" + csr
+}
+
 func srcOrder(fn string) string {
-	if fn == "DoWithContext" {
+	switch fn {
+	case "DoWithContext":
 		return webhookTable()
+	case "@signers":
+		return signers()
+	case "@callers":
+		return callers()
+	case "@scepTypes":
+		return scepTypes()
 	}
 	x := &extractor{}
 	x.fn(fn)
